@@ -21,7 +21,13 @@ _QUIRKS = None
 
 
 def open_quirks():
+    """(`VERIF_MODEL_SWITCHES`, a comma-separated list or "-" for none, overrides the findings files: used to evaluate a
+    candidate fix against a scratch worktree — with the fix applied the code must agree with the switch *off*)"""
     global _QUIRKS
+    import os
+    if _QUIRKS is None and os.environ.get("VERIF_MODEL_SWITCHES"):
+        v = os.environ["VERIF_MODEL_SWITCHES"]
+        _QUIRKS = [] if v == "-" else sorted(x for x in v.split(",") if x)
     if _QUIRKS is None:
         _QUIRKS = sorted(f["model_switch"] for f in common.load_findings()
                          if f.get("status") == "open" and f.get("model_switch") and f.get("model") == "Asl.run")
@@ -102,12 +108,24 @@ TIMED_SHARE = 0.35      # share of the generated cases made to exercise the cloc
 
 
 def gen_case(rng, depth, small=False, timed=False):
-    g = machgen.Gen(rng, max_depth=depth)
-    m = g.machine()
-    case = {"machine": m, "input": machgen.gen_input(rng), "plans": g.fns}
-    if timed:
-        machgen.timify(rng, case["machine"], case["plans"], case["input"])
+    want_limit = timed and rng.random() < machgen.LIMIT_SHARE
+    for attempt in range(4):
+        g = machgen.Gen(rng, max_depth=depth)
+        m = g.machine()
+        case = {"machine": m, "input": machgen.gen_input(rng), "plans": g.fns}
+        if not timed:
+            break
+        machgen.timify(rng, case["machine"], case["plans"], case["input"], slow=want_limit)
         case["timed"] = True
+        if not want_limit:
+            break
+        # an execution time limit, placed with a view to how long the run takes without one; a run that takes no time is
+        # drawn again (a few times): the limit is to run out somewhere
+        r0 = run_one(case)
+        end = next((x["t"] for x in r0.notifications if x["body"]["detail"].get("status") != "RUNNING"), None)
+        if end is not None and (end >= 1000 or attempt == 3):
+            machgen.set_time_limit(rng, case["machine"], end)
+            break
     if small and isinstance(case["input"], dict) and rng.random() < 0.4:
         # padded input: 450-900 characters, the limit 345.. above it but below twice its size.  A state that copies
         # its input into its result (a worker echoes its payload) is refused, while the Error Output — whose Cause
@@ -363,11 +381,14 @@ def run(chk):
         # --- the history: every StateEntered / StateExited the engine wrote, and the number of task requests, against
         # the log of the reference semantics
         timed_dist(chk, c, m)
+        from props import c08
+        c08.limit_dist(chk, c["machine"], m, "timed")
         mode, hp, nev = enginerun.compare_history(c["machine"], m, r.history, len(r.requests), timed=True,
                                                   request_instants=[q["t"] for q in r.requests], requests=r.requests)
         chk.dist("history.%s" % mode)
         chk.dist("history.%s.events" % mode, nev)
-        nmode, np_ = enginerun.compare_notifications(m, [n["body"]["detail"] for n in r.notifications], c["input"], timed=True, requests=r.requests)
+        nmode, np_ = enginerun.compare_notifications(m, [n["body"]["detail"] for n in r.notifications], c["input"], timed=True, requests=r.requests,
+                                                     machine=c["machine"])
         chk.dist("notifications.%s" % nmode)
         hp = hp + np_
         if hp:
